@@ -57,7 +57,7 @@ def digest (c : Cli) : String :=
   s!"st now={c.now} run={b01 c.running} cid={c.chunkid}/{c.chunkidPrev}/{c.chunkidPrev2} rs={c.randSeed}" ++
   s!" out={c.outpkt.len}/{c.outpkt.offset}/{c.outpkt.sentlen}/{c.outpkt.seqno}/{c.outpkt.fragment}/{pkSum c.outpkt}" ++
   s!" in={c.inpkt.len}/{c.inpkt.seqno}/{c.inpkt.fragment}/{pkSum c.inpkt} ocr={c.outchunkresent}" ++
-  s!" conn={if c.conn = .dnsNull then 1 else 0} lazy={b01 c.lazymode} sps={c.sendPingSoon} ldt={c.lastdownstreamtime}" ++
+  s!" conn={if c.conn = .dnsNull then 1 else 0} lazy={b01 c.lazymode} sps={c.sendPingSoon} ldt={c.lastdownstreamtime} lrp={c.lastrawping}" ++
   s!" sel={c.selecttimeout} enc={showEnc c.dataenc} dn={if c.downenc = 0 then "0" else String.singleton (Char.ofNat c.downenc)}" ++
   s!" qt={c.doQtype} uid={c.userid} ml={c.hostnameMaxlen} e0={b01 c.edns0}"
 
@@ -127,6 +127,7 @@ def setField (c : Cli) (kv : String) : Cli :=
     else if k == "conn" then { c with conn := if n ≠ 0 then .dnsNull else .rawUdp }
     else if k == "sps" then { c with sendPingSoon := n.toNat }
     else if k == "ldt" then { c with lastdownstreamtime := n.toNat }
+    else if k == "lrp" then { c with lastrawping := n.toNat }
     else if k == "now" then { c with now := n.toNat }
     else if k == "ml" then { c with hostnameMaxlen := n }
     else if k == "uid" then
